@@ -100,6 +100,31 @@ pub fn run(tier: &str) -> i32 {
         universe.push(Ty::strukt(&[("a", x.clone())]));
         universe.push(Ty::union([Ty::arr(x.clone()), Ty::Int]));
     }
+    // width ladder: struct types of 1..=12 fields, tuples and parameter lists of 1..=12 members,
+    // unions of 2..=8 members - alone and under every one-argument constructor
+    {
+        let names = ["a", "b", "c", "d", "e", "f", "g", "h", "i", "j", "k", "l"];
+        let kinds = [Ty::Int, Ty::Str, Ty::Float, Ty::Bool, Ty::arr(Ty::Int), Ty::Void, Ty::Tup(vec![Ty::Int, Ty::Str]), Ty::mutc(Ty::Int)];
+        for w in 1..=12usize {
+            let fields: Vec<(&str, Ty)> = (0..w).map(|i| (names[i], kinds[i % kinds.len()].clone())).collect();
+            let st = Ty::strukt(&fields);
+            let tup = Ty::Tup((0..w).map(|i| kinds[i % kinds.len()].clone()).collect());
+            let func = Ty::func((0..w).map(|i| kinds[i % kinds.len()].clone()).collect(), Ty::Int);
+            // (a one-member tuple type does not exist: `(T)` is T in parentheses)
+            let mut wide = if w >= 2 { vec![st, tup, func] } else { vec![st, func] };
+            if (2..=8).contains(&w) {
+                wide.push(Ty::union((0..w).map(|i| kinds[i].clone())));
+            }
+            for x in wide {
+                universe.push(Ty::arr(x.clone()));
+                universe.push(Ty::mutc(x.clone()));
+                universe.push(Ty::func(vec![x.clone()], x.clone()));
+                universe.push(Ty::union([x.clone(), Ty::Int]));
+                universe.push(Ty::strukt(&[("z", x.clone())]));
+                universe.push(x);
+            }
+        }
+    }
     let set: BTreeSet<Ty> = universe.into_iter().collect();
     let universe: Vec<Ty> = set.into_iter().collect();
     let n = universe.len();
